@@ -152,7 +152,7 @@ func init() {
 		},
 	})
 	register(&Rule{
-		Name: "message-consistency", Props: []string{"C20", "C18"}, Engine: "AST", Floor: 4,
+		Name: "message-consistency", Props: []string{"C20", "C18", "C01"}, Engine: "AST", Floor: 5,
 		Doc: "a request with two content-length fields that disagree is refused before the second one is stored; the client builds its own SETTINGS from the defaults (which are what it enforces) before it customises them; a SETTINGS frame from the server that sets ENABLE_PUSH is a connection error in the handshake and afterwards, and is not applied",
 		Run: func(p *Prog, r *Out) {
 			if fd := p.decl("(*serverConn).handleHeaderFrame"); fd != nil {
@@ -172,6 +172,27 @@ func init() {
 					return true
 				})
 				r.check(rejAt.IsValid() && storeAt.IsValid() && rejAt < storeAt, "conflicting content-length fields are refused", p.pos(fd.Pos()), "if hasContentLength && n != contentLength { reject } before contentLength = n", "a second content-length that disagrees with the first is stored over it: the body is checked against whichever came last, trailers included (RFC 7230 s3.3.2)")
+			}
+			// what is compared with content-length is the body, not the frames: padding
+			// and the Pad Length octet are not part of it (RFC 7540 s8.1.2.6)
+			if fd := p.decl("(*serverConn).handleFrame"); fd != nil {
+				r.fn("(*serverConn).handleFrame")
+				dataDef, adv := false, false
+				ast.Inspect(fd.Body, func(n ast.Node) bool {
+					as, ok := n.(*ast.AssignStmt)
+					if !ok {
+						return true
+					}
+					t := squash(p.text(as))
+					if t == "data:=fr.Body().(*Data).Data()" {
+						dataDef = true
+					}
+					if t == "strm.recvBody+=len(data)" {
+						adv = true
+					}
+					return true
+				})
+				r.check(dataDef && adv, "the body length counted is the data, without padding", p.pos(fd.Pos()), "data := frame's Data(); recvBody += len(data)", "the count that is compared with content-length is no longer advanced by the length of the DATA frame's data alone: with the frame length, a padded body of the declared length is refused as a mismatch")
 			}
 			if fd := p.decl("NewConn"); fd != nil {
 				r.fn("NewConn")
